@@ -36,7 +36,7 @@ def module_prologues(with_clients=False):
         if m:
             extra = os.path.join(ROOT, 'spec', 'mod_%s.rs' % m.replace('::', '_'))
             imp = ''.join('#[allow(unused_imports)] use crate::%s::*;\n' % x for x in ('arithmetic', 'rounding') if x != m)
-            bc = 'broadcast use {vstd::group_vstd_default, crate::ax::axiom_ref_into_self, crate::ax::axiom_ref_into_self_obeys, crate::shim::axiom_spec_magnitude, crate::ax::val_algebra};\n'
+            bc = 'broadcast use {vstd::group_vstd_default, crate::ax::axiom_ref_into_self, crate::ax::axiom_ref_into_self_obeys, crate::shim::axiom_spec_magnitude, crate::ax::val_algebra, crate::ax::axiom_fmt_req_all_ref_view};\n'
             pro[m] = common + imp + bc + (open(extra).read() if os.path.exists(extra) else '')
     return pro
 
